@@ -35,7 +35,7 @@ NextPow2From(p, n) == IF p >= n THEN p ELSE NextPow2From(2 * p, n)
 NextPow2(n) == NextPow2From(1, n)
 RECURSIVE SumSeq(_)
 SumSeq(s) == IF s = <<>> THEN 0 ELSE Head(s) + SumSeq(Tail(s))
-Huge == 2147483647
+Huge == 1000000000   \* values are clamped to +-10^9 by the trace writer so that sums and differences stay inside TLC's 32-bit integers
 IsThrow(r) == Len(r) >= 6 /\ SubSeq(r, 1, 6) = "throw:"
 OomFamily == {"throw:out_of_memory", "throw:out_of_fixed_memory"}
 SizeFamily == {"throw:bad_allocation_size", "throw:bad_node_size", "throw:bad_array_size",
@@ -84,7 +84,9 @@ Result(s, v) == [s |-> s, v |-> v]
 (* upstream events *)
 OnUa(e) ==
   Result([st EXCEPT !.blocks = Append(@, [size |-> e.sz, al |-> e.al, src |-> e.s,
-                                           live |-> TRUE, st |-> e.st])], {})
+                                           live |-> TRUE, st |-> e.st])],
+         \* a fixed storage hands out blocks of itself only: beyond its end it must refuse (out_of_fixed_memory)
+         Chk(~e.out, "C03", "FixedStorageNeverOverrun", <<e.s, e.b, e.sz>>))
 
 OnUx(e) == Result([st EXCEPT !.inj = @ + 1], {})
 
@@ -111,7 +113,8 @@ OnNew(e) ==
             curblk |-> IF mine = {} THEN -1 ELSE MaxOf(mine) - 1,
             cap0s |-> e.caps, caps |-> e.caps, fnE |-> e.fn, bsz |-> IF mine = {} THEN 0 ELSE st.blocks[MaxOf(mine)].size,
             \* memory_arena driven directly: the block stacks (block numbers, top = last)
-            used |-> <<>>, cach |-> <<>>, acached |-> e.acached]
+            used |-> <<>>, cach |-> <<>>, acached |-> e.acached,
+            ssz |-> e.ssz, sbs |-> e.sbs]      \* static source: size of the storage and of its blocks (0: not known)
       famOk == e.r \in OomFamily \cup SizeFamily \/ (e.r = "throw:injected" /\ e.upf > 0)
   IN Result([st EXCEPT !.objs = Append(@, o), !.pend = <<>>, !.inj = 0],
        Chk(ok \/ famOk, "C03", "ThrowIsLibraryFamily", <<"new", e.r>>)
@@ -130,7 +133,11 @@ RunFree(o, mine, need) ==
   \E i \in mine : LET cnt == (st.blocks[i].size - o.hdr) \div o.ns
                   IN \E k0 \in 0..(cnt - need) : \A j \in 0..(need - 1) : SlotFree(i, o.hdr + (k0 + j) * o.ns, o.ns)
 OrderedList(o) == o.fam = "pool" /\ (o.type = "array" \/ (o.type = "node" /\ cfg.dbl = 1))
-Justified(o, mine) == st.inj > 0 \/ (o.srck = "fixed" /\ mine # {}) \/ o.srck \in {"static", "virtual"}
+\* a static source refuses only when its storage cannot hold another block
+RECURSIVE SumBlocks(_)
+SumBlocks(S) == IF S = {} THEN 0 ELSE LET i == CHOOSE i \in S : TRUE IN st.blocks[i].size + SumBlocks(S \ {i})
+Justified(o, mine) == st.inj > 0 \/ (o.srck = "fixed" /\ mine # {}) \/ o.srck = "virtual"
+                      \/ (o.srck = "static" /\ (o.ssz = 0 \/ SumBlocks(mine) + o.sbs > o.ssz))
 OnAlloc(e) ==
   LET o == Obj(e.o)
       ok == e.r = "ok"
